@@ -96,10 +96,10 @@ func (r *runner) section1(co *corpusT) {
 		"document.NewDG1": 0x61, "document.NewDG2": 0x75, "document.NewDG7": 0x67, "document.NewDG11": 0x6B, "document.NewDG12": 0x6C, "document.NewDG13": 0x6D,
 		"document.NewDG14": 0x6E, "document.NewDG15": 0x6F, "document.NewDG16": 0x70, "document.NewCOM": 0x60, "document.NewSOD": 0x77,
 		"document.NewCardAccess": 0x03, "document.NewCardSecurity": 0xA3, "document.NewEFDIR": 0x61,
-		"tlv.Decode+String": 0x21, "iso7816.SM.Decode/3DES": 0x90,
+		"tlv.Decode+String": 0x21,
 	}
 	if c.Thorough() {
-		own["document.DecodeSecurityInfos"] = 0x03
+		own["document.DecodeSecurityInfos"], own["iso7816.SM.Decode/3DES"] = 0x03, 0x90
 		own["tlv.Unwrap"], own["tlv.DecodeEncode"], own["iso7816.SM.Decode/AES128"], own["document.Document.NewDG"] = 0x77, 0x21, 0x90, 0x6E
 	}
 	var names []string
@@ -222,30 +222,34 @@ func capFor(seed, en string, n int, pipe bool) int {
 	case strings.HasPrefix(en, "json("):
 		return clamp(40000/(n+1), 48, 384)
 	case en == "tlv.Decode+String" || en == "tlv.DecodeEncode":
-		return clamp(60000/(n+1), 64, 2048) // String() of a whole file costs time proportional to its size
+		return clamp(40000/(n+1), 48, 2048) // String() of a whole file costs time proportional to its size
 	case strings.HasPrefix(en, "mobile.Verifier.Verify/file"):
-		return 12 // 3..7 ms per call (passive authentication against the built-in master lists)
+		return 6 // 3..7 ms per call (passive authentication against the built-in master lists)
 	case strings.Contains(en, "/rawdoc"):
-		return 96
+		return 64
+	case strings.HasPrefix(en, "VerifyEvidence/bundle[full]") && !strings.Contains(seed, "evidence=+cam+ca+aa"):
+		return 128
 	case strings.HasPrefix(en, "mobile."), strings.HasPrefix(en, "verifier.Verify["), strings.Contains(en, "/docex"):
 		return 160
 	case strings.HasPrefix(en, "verifier.Verify/bundle"):
 		if strings.Contains(seed, "evidence=+cam+ca+aa") {
-			return 320
+			return 128
 		}
 		return 24 // the evidence verifiers see every position of every subset directly (VerifyEvidence/bundle)
 	case strings.Contains(seed, "explicit") && pipe:
-		return 96 // generic-curve arithmetic, about 1 ms per call
+		return 48 // generic-curve arithmetic, about 1 ms per call
 	case strings.HasPrefix(en, "verifier.Verify/file:sod"), strings.HasPrefix(en, "verifier.Verify/file:cardSecurity"):
-		return 160 // the same files are swept at every position through PassiveAuth / pace.VerifyEvidence directly
+		return 64 // the same files are swept at every position through PassiveAuth / pace.VerifyEvidence directly
+	case strings.HasPrefix(en, "verifier.Verify/file:"), pipe && strings.Contains(seed, "/SOD-"):
+		return 128
 	case pipe:
 		return 256
 	case en == "document.Document.NewDG":
-		return 512 // same code as the file's own constructor, which sweeps every position
+		return 192 // same code as the file's own constructor, which sweeps every position
 	case strings.Contains(seed, "/SOD-") || strings.Contains(seed, "/pss/") || strings.Contains(seed, "var/SOD"):
 		return 640
 	}
-	return 1536
+	return 1280
 }
 
 // section2: every position x every byte value, every truncation, every one-byte extension of every seed.
